@@ -137,6 +137,27 @@ def build_model():
                 raise BuildError("ocaml compile failed:\n" + o + e)
 
 
+def wrap_statements(ml_body):
+    """every `let () = <expr>` statement of a generated case file becomes a function of its own, called in order at the
+    end: ocamlopt's compile time is super-linear in the size of one function, and without this the module initialiser is
+    one function holding every query (the thorough tiers did not compile within half an hour).  The definitions of worlds
+    and tape references stay top-level values in their original order; the queries run after all of them, in order."""
+    out, calls = [], []
+    k = 0
+    for line in ml_body.split("\n"):
+        if line.startswith("let () = "):
+            out.append("let __q%d () = %s" % (k, line[len("let () = "):]))
+            calls.append("__q%d ()" % k)
+            k += 1
+        else:
+            out.append(line)
+    # chunks of calls keep the final initialiser small as well
+    for c in range(0, len(calls), 500):
+        out.append("let __run%d () = %s" % (c // 500, "; ".join(calls[c:c + 500])))
+    out.append("let () = " + "; ".join("__run%d ()" % i for i in range((len(calls) + 499) // 500)) if calls else "let () = ()")
+    return "\n".join(out)
+
+
 def run_model(ml_body, tag="cases"):
     """compile a generated case file against model+driver and run it; returns answer lines."""
     build_model()
@@ -146,7 +167,7 @@ def run_model(ml_body, tag="cases"):
         src = os.path.join(d, "cases.ml")
         with open(src, "w") as f:
             f.write("open Model\nopen Driver\nlet n = Driver.num\n")
-            f.write(ml_body)
+            f.write(wrap_statements(ml_body))
             f.write("\n")
         rc, o, e = sh("ulimit -s unlimited 2>/dev/null || ulimit -s 4000000; ocamlfind ocamlopt -w -a -I %s %s/model.cmx %s/driver.cmx cases.ml -o cases.exe" % (OCAML, OCAML, OCAML),
                       cwd=d, timeout=1800)
@@ -200,19 +221,21 @@ def build_repo():
         return time.time() - t0
 
 
-def build_repo_san():
-    """a second build of /repo's working tree with AddressSanitizer + UBSan (thorough tiers of C12/C13): wbprobe_san"""
-    bdir = os.path.join(WORK, "build_san")
-    with Lock("repo_san"):
+def build_repo_san(kind="asan"):
+    """a further build of /repo's working tree with sanitizers: kind 'asan' = AddressSanitizer + UBSan (thorough tiers of
+    C12/C13, harness wbprobe_san), kind 'tsan' = ThreadSanitizer (thorough tier of C14, harness wbprobe_tsan)"""
+    bdir = os.path.join(WORK, "build_san" if kind == "asan" else "build_tsan")
+    with Lock("repo_" + kind):
         t0 = time.time()
-        flags = "-fsanitize=address,undefined -fno-sanitize-recover=undefined -fno-omit-frame-pointer"
+        flags = ("-fsanitize=address,undefined -fno-sanitize-recover=undefined -fno-omit-frame-pointer" if kind == "asan"
+                 else "-fsanitize=thread -fno-omit-frame-pointer")
         if not os.path.exists(os.path.join(bdir, "build.ninja")):
             os.makedirs(bdir, exist_ok=True)
             cmd = ("cmake -G Ninja -S %s -B %s -DCMAKE_BUILD_TYPE=RelWithDebInfo "
                    "-DCMAKE_CXX_FLAGS='-D%s -Wno-error %s' -DCMAKE_CXX_FLAGS_RELWITHDEBINFO='-O1 -g -DNDEBUG' "
-                   "-DCMAKE_EXE_LINKER_FLAGS='-fsanitize=address,undefined' "
+                   "-DCMAKE_EXE_LINKER_FLAGS='%s' "
                    "-DWB_ENABLE_TESTS=OFF -DWB_ENABLE_PYTHON=OFF -DWB_MAKE_FORTRAN_WRAPPER=OFF -DWB_UNITY_BUILD=OFF"
-                   % (REPO, bdir, GUARD, flags))
+                   % (REPO, bdir, GUARD, flags, "-fsanitize=address,undefined" if kind == "asan" else "-fsanitize=thread"))
             rc, o, e = sh(cmd, timeout=600)
             if rc != 0:
                 raise BuildError("cmake configure (sanitizers) failed:\n" + (o + e)[-3000:])
@@ -220,7 +243,7 @@ def build_repo_san():
         if rc != 0:
             raise BuildError("/repo does not build with sanitizers:\n" + (o + e)[-4000:])
         lib = os.path.join(bdir, "lib", "libWorldBuilder.a")
-        probe = os.path.join(WORK, "wbprobe_san")
+        probe = os.path.join(WORK, "wbprobe_san" if kind == "asan" else "wbprobe_tsan")
         src = os.path.join(VERIF, "harness", "wbprobe.cc")
         if newer(lib, probe) or newer(src, probe):
             cmd = ("g++ -O1 -g -std=c++14 %s -D%s -I%s/include -I%s/include -I%s %s -Wl,--whole-archive %s -Wl,--no-whole-archive -lz -lpthread -o %s.tmp && mv %s.tmp %s"
@@ -246,6 +269,7 @@ def run_probe_resilient(setup_lines, query_lines, exe="wbprobe", timeout=300, cw
             p = subprocess.run([probe], input="\n".join(lines) + "\n", capture_output=True, text=True, errors="replace", timeout=timeout, cwd=cwd, env=env)
             ans = parse_answers(p.stdout)
             rc, err = p.returncode, p.stderr
+            errs["_stderr"] = errs.get("_stderr", "") + p.stderr
             hung = False
         except subprocess.TimeoutExpired as ex:
             ans = parse_answers(ex.stdout.decode() if isinstance(ex.stdout, bytes) else (ex.stdout or ""))
